@@ -117,8 +117,24 @@ func paramLists() [][]int {
 			}
 		}
 	}
+	if thoroughTier {
+		// appended, so that the indices of the quick tier's lists stay what they are: three parameters over the first six
+		// native types (the combinations above excluded)
+		for a := 0; a < 6; a++ {
+			for b := 0; b < 6; b++ {
+				for c := 0; c < 6; c++ {
+					if a < 3 && b < 3 && c < 3 {
+						continue
+					}
+					out = append(out, []int{a, b, c})
+				}
+			}
+		}
+	}
 	return out
 }
+
+var thoroughTier bool
 
 // result shapes
 type shape struct {
@@ -347,6 +363,7 @@ func (c *checker) exercise(kase string, fn schema.CallableFunction, h handlerSpe
 }
 
 func run(tier string, raw json.RawMessage, from int, deadline time.Time) ux.Result {
+	thoroughTier = thoroughTier || tier == "thorough"
 	var b batch
 	_ = json.Unmarshal(raw, &b)
 	var res ux.Result
@@ -454,6 +471,7 @@ func main() {
 		Level:      "exploration",
 		Exhaustive: true,
 		Batches: func(tier string) []any {
+			thoroughTier = tier == "thorough"
 			var out []any
 			for i := range paramLists() {
 				out = append(out, batch{i})
@@ -467,10 +485,10 @@ func main() {
 				return nil
 			}
 			b, _ := json.Marshal(batch{r.Params})
-			res := run("quick", b, 0, time.Time{})
+			res := run("thorough", b, 0, time.Time{})
 			return res.Findings
 		},
-		Rule: "handlers built with reflect.MakeFunc for every parameter list of 0-2 parameters over 15 native types (the typed list / map schemas included; int64, string, float64, bool, []string, map[string]int64, any, map[int64]int64, []int64, []map[string]int64, []map[int64]int64, []MyStr (a list of typed enum values), MyStr) and 3 parameters over 3 types x 14 result shapes (none, V, error, (V,error), (V,V), (V,V,error), (error,V), (V,bool), (V, int type named 'error'), (int type named 'error'), and four with a result that implements error without being the predeclared interface: (V,*T), (V,struct), (V, wider interface), (*T)) x declarations (matching inputs, every single-position mismatch, one fewer, one more; output in {nil, each of the 7}; outputsError in {false,true}) for NewCallableFunction, and the inputs for NewDynamicCallableFunction; every accepted function is called with 0..4 arguments, and once with a handler returning a non-nil error",
+		Rule: "handlers built with reflect.MakeFunc for every parameter list of 0-2 parameters over 15 native types (the typed list / map schemas included; int64, string, float64, bool, []string, map[string]int64, any, map[int64]int64, []int64, []map[string]int64, []map[int64]int64, []MyStr (a list of typed enum values), MyStr) and 3 parameters over 3 types (thorough tier: over 6 types) x 14 result shapes (none, V, error, (V,error), (V,V), (V,V,error), (error,V), (V,bool), (V, int type named 'error'), (int type named 'error'), and four with a result that implements error without being the predeclared interface: (V,*T), (V,struct), (V, wider interface), (*T)) x declarations (matching inputs, every single-position mismatch, one fewer, one more; output in {nil, each of the 7}; outputsError in {false,true}) for NewCallableFunction, and the inputs for NewDynamicCallableFunction; every accepted function is called with 0..4 arguments, and once with a handler returning a non-nil error",
 		Assumptions: []string{
 			"reference predicate: parameter and result types equal the schemas' reflected types; an error result is the predeclared interface type error",
 			"interface types other than `error` that embed error are outside the alphabet",
